@@ -46,7 +46,7 @@ impl Case {
                     let f = i % *files;
                     fs[f].1.push_str(&format!("pub fn emit_{}(app: &AppHandle) {{ app.emit(\"item-changed\", {}).unwrap(); }}\n", i, payload));
                 }
-                (Project { files: fs }, cfg)
+                (Project { files: fs, links: vec![] }, cfg)
             }
             Case::Collision { kind } => {
                 let mut s = String::from(gen::PRELUDE);
@@ -69,6 +69,7 @@ impl Case {
                                     ("src/a.rs".into(), "#[tauri::command]\npub fn ping() -> i32 { 1 }\n".into()),
                                     ("src/b.rs".into(), "#[tauri::command]\npub fn ping() -> i32 { 2 }\n".into()),
                                 ],
+                                links: vec![],
                             },
                             cfg,
                         );
@@ -80,6 +81,7 @@ impl Case {
                                     ("src/a.rs".into(), format!("{}#[derive(Serialize, Deserialize)]\npub struct Dup {{ pub a: i32 }}\n#[tauri::command]\npub fn fa(d: Dup) -> i32 {{ 1 }}\n", gen::PRELUDE)),
                                     ("src/b.rs".into(), format!("{}#[derive(Serialize, Deserialize)]\npub struct Dup {{ pub a: i32 }}\n#[tauri::command]\npub fn fb(d: Dup) -> i32 {{ 2 }}\n", gen::PRELUDE)),
                                 ],
+                                links: vec![],
                             },
                             cfg,
                         );
